@@ -498,6 +498,19 @@ pub fn lockstep_route(program: &[El], via_bits: bool, force: Option<u8>, o: &mut
     let mut interp = Interpreter::from_script(&script);
     let mut model = Model::new(program);
     let mut steps = 0usize;
+    // items grown by the program (OP_CAT doubling, OP_NUM2BIN) end the comparison at 1 MiB; an item the program text itself
+    // pushes is worked on whatever its size (the OP_SIZE cases push 8 MiB to reach four-byte results)
+    fn largest_push(els: &[El]) -> usize {
+        els.iter()
+            .map(|e| match e {
+                El::Push(_, d) => d.len(),
+                El::If { pass, fail, .. } => largest_push(pass).max(fail.as_ref().map_or(0, |f| largest_push(f))),
+                _ => 0,
+            })
+            .max()
+            .unwrap_or(0)
+    }
+    let size_cap = MAX_ITEM.max(2 * largest_push(program));
     loop {
         if model.done() {
             let extra = lib_call("next", || interp.next())?;
@@ -543,7 +556,7 @@ pub fn lockstep_route(program: &[El], via_bits: bool, force: Option<u8>, o: &mut
                         return Err(failure(&format!("semantics:{}", desc), format!("step {}: next() = None before {}", steps, desc), "the element is executed"));
                     }
                 }
-                if model.stack.iter().chain(model.alt.iter()).any(|x| x.len() > MAX_ITEM) {
+                if model.stack.iter().chain(model.alt.iter()).any(|x| x.len() > size_cap) {
                     o.label("size-cap");
                     break;
                 }
